@@ -1,3 +1,812 @@
+// link.go: C14 — remoting under connection faults.
 package main
 
-func (h *H) runLink() {}
+import (
+	"encoding/binary"
+	"fmt"
+	"runtime"
+	"strings"
+	"time"
+
+	"github.com/kercylan98/vivid"
+	"github.com/kercylan98/vivid/internal/actor"
+	"github.com/kercylan98/vivid/xverif/lib"
+)
+
+func be32(n int) []byte { b := make([]byte, 4); binary.BigEndian.PutUint32(b, uint32(n)); return b }
+
+func lp(b []byte) []byte { return append(be32(len(b)), b...) }
+
+// envBytes builds an envelope body by hand (used only for INJECTED / embedded frames; what the systems send is built by vivid)
+func envBytes(payload []byte, name string, system bool, sa, sp, ra, rp string) []byte {
+	var out []byte
+	out = append(out, lp(payload)...)
+	out = append(out, lp([]byte(name))...)
+	if system {
+		out = append(out, 1)
+	} else {
+		out = append(out, 0)
+	}
+	for _, s := range []string{sa, sp, ra, rp} {
+		out = append(out, lp([]byte(s))...)
+	}
+	return out
+}
+
+// healthy makes sure a live connection from -> to exists and returns it
+func (h *H) healthy(from, to *Node) *PConn {
+	cs := to.Proxy.Conns(0)
+	if len(cs) > 0 && cs[len(cs)-1].Alive() {
+		// prove it with a sync
+		syncSeq++
+		s := syncSeq
+		from.Sys.Tell(RemoteRecv(to), &XMsg{Kind: KSync, Seq: s})
+		if waitUntil(100*time.Millisecond, func() bool { return hasSync(to, s) }) {
+			return to.Proxy.Conns(0)[to.Proxy.NConns()-1]
+		}
+	}
+	if !h.resync(from, to, func(int) Plan { return defaultPlan() }) {
+		return nil
+	}
+	return to.Proxy.Conns(0)[to.Proxy.NConns()-1]
+}
+
+func hasSync(n *Node, s uint64) bool {
+	for _, g := range n.Rec.Snapshot(0) {
+		if g.Kind == KSync && g.Seq == s {
+			return true
+		}
+	}
+	return false
+}
+
+// ---- S2: Tell to an unreachable peer ----
+func xvTellProbe(sys vivid.ActorSystem, ref vivid.ActorRef, m *XMsg, done chan time.Duration) {
+	t := time.Now()
+	sys.Tell(ref, m)
+	done <- time.Since(t)
+}
+
+func (h *H) tellBlocking() {
+	res := map[string]any{}
+	for _, limit := range []int{0, 1, 3} {
+		n, err := StartNode(fmt.Sprintf("T%d", limit), limit, nil)
+		if err != nil {
+			panic(err)
+		}
+		dead, _ := freePort() // nothing listens there: dials are refused at once
+		ref, _ := actor.NewRef(dead, "/recv")
+		done := make(chan time.Duration, 1)
+		go xvTellProbe(n.Sys, ref, &XMsg{Kind: KTell, Sender: 1, Seq: 1}, done)
+		var stack string
+		var d time.Duration
+		select {
+		case d = <-done:
+		case <-time.After(60 * time.Millisecond):
+			buf := make([]byte, 1<<20)
+			buf = buf[:runtime.Stack(buf, true)]
+			for _, g := range strings.Split(string(buf), "\n\n") {
+				if strings.Contains(g, "xvTellProbe") {
+					stack = g
+				}
+			}
+			select {
+			case d = <-done:
+			case <-time.After(30 * time.Second):
+				d = 30 * time.Second
+			}
+		}
+		inSleep := strings.Contains(stack, "time.Sleep") && strings.Contains(stack, "ExponentialBackoff).Try") && strings.Contains(stack, "(*Mailbox).Enqueue")
+		// the sending ACTOR: does it keep processing its mailbox while delivery is retried?
+		var tellAt, pingAt time.Time
+		pong := make(chan struct{})
+		aref, _ := n.Sys.ActorOf(vivid.ActorFN(func(ctx vivid.ActorContext) {
+			switch ctx.Message().(type) {
+			case *Burst:
+				tellAt = time.Now()
+				ctx.Tell(ref, &XMsg{Kind: KTell, Sender: 2, Seq: 1})
+			case *XMsg:
+				pingAt = time.Now()
+				close(pong)
+			}
+		}))
+		n.Sys.Tell(aref, &Burst{})
+		n.Sys.Tell(aref, &XMsg{Kind: KSync})
+		select {
+		case <-pong:
+		case <-time.After(30 * time.Second):
+			pingAt = time.Now()
+		}
+		actorStall := pingAt.Sub(tellAt)
+		res[fmt.Sprintf("limit_%d", limit)] = map[string]any{"tell_ms": d.Seconds() * 1000, "actor_next_message_delay_ms": actorStall.Seconds() * 1000,
+			"caller_goroutine_in_backoff_sleep": inSleep, "expected_sleep_sum_ms": 100 * ((1 << limit) - 1)}
+		h.logf("tell-blocking limit=%d: Tell took %v, actor stalled %v, caller in backoff sleep: %v", limit, d, actorStall, inSleep)
+		if limit > 0 && inSleep {
+			// structural observation (not a timing threshold): the goroutine that called Tell is parked in time.Sleep inside backoff.Try under Mailbox.Enqueue
+			min := time.Duration(75*((1<<limit)-1)) * time.Millisecond
+			if d >= min/2 {
+				h.o.Monitor("c14-tell-blocks", lib.L(lib.S("tell-unreachable"), lib.NI(limit)),
+					fmt.Sprintf("Tell to an unreachable peer with ReconnectLimit=%d returned after %.0f ms (sum of back-offs ~%d ms); 60 ms into the call the calling goroutine was parked in time.Sleep <- ExponentialBackoff.Try <- remoting.(*Mailbox).Enqueue; an actor doing that Tell handled its next mailbox message %.0f ms later",
+						limit, d.Seconds()*1000, 100*((1<<limit)-1), actorStall.Seconds()*1000))
+			}
+		}
+		n.Stop()
+		n.Proxy.Close()
+	}
+	h.o.Info["tell_unreachable"] = res
+}
+
+// ---- S4: the tail of an old connection arrives after the head of its successor ----
+func (h *H) overlap(A, B *Node) {
+	B.Proxy.KillAll()
+	first := B.Proxy.NConns()
+	B.Proxy.SetPlan(func(i int) Plan {
+		p := defaultPlan()
+		if i == first {
+			p.Hold = true
+		}
+		return p
+	})
+	m := mark(B)
+	ref := RemoteRecv(B)
+	var sent []*XMsg
+	tell := func(seq uint64) {
+		x := &XMsg{Kind: KTell, Sender: 400, Seq: seq, Data: []byte("overlap")}
+		sent = append(sent, x)
+		A.Sys.Tell(ref, x)
+	}
+	// get onto the held connection (the first Tell after KillAll may die on the old one)
+	var held *PConn
+	seq := uint64(0)
+	for i := 0; i < 50 && held == nil; i++ {
+		seq++
+		tell(seq)
+		waitUntil(50*time.Millisecond, func() bool { return B.Proxy.NConns() > first })
+		if B.Proxy.NConns() > first {
+			held = B.Proxy.Conns(first)[0]
+		}
+	}
+	if held == nil {
+		h.o.Stats["overlap-skipped"]++
+		return
+	}
+	seq++
+	tell(seq)
+	seq++
+	tell(seq)
+	// wait until the proxy holds all of it
+	waitUntil(time.Second, func() bool { r := held.Received(); time.Sleep(2 * time.Millisecond); return r > 0 && r == held.Received() })
+	heldBytes := held.Received()
+	held.ResetClient()
+	time.Sleep(5 * time.Millisecond)
+	// the sender notices at its next write and moves to a new connection
+	base := seq
+	for i := 0; i < 20; i++ {
+		seq++
+		tell(seq)
+		s := seq
+		if waitUntil(60*time.Millisecond, func() bool {
+			for _, g := range B.Rec.Snapshot(m.rec) {
+				if g.Sender == 400 && g.Seq == s {
+					return true
+				}
+			}
+			return false
+		}) {
+			break
+		}
+	}
+	held.Release()
+	waitUntil(2*time.Second, func() bool {
+		for _, g := range B.Rec.Snapshot(m.rec) {
+			if g.Sender == 400 && g.Seq == base {
+				return true
+			}
+		}
+		return false
+	})
+	time.Sleep(20 * time.Millisecond)
+	var order []uint64
+	for _, g := range B.Rec.Snapshot(m.rec) {
+		if g.Sender == 400 {
+			order = append(order, g.Seq)
+		}
+	}
+	h.o.Info["overlap_received_order"] = fmt.Sprint(order)
+	h.o.Stats["overlap-runs"]++
+	sorted := true
+	for i := 1; i < len(order); i++ {
+		if order[i] <= order[i-1] {
+			sorted = false
+		}
+	}
+	if !sorted {
+		h.o.Monitor("c14-reorder-across-connections", lib.L(lib.S("overlap"), lib.NI(int(heldBytes))),
+			fmt.Sprintf("A sent seq 1..%d in order; %d bytes (complete frames) of the first connection were still in flight when A's side was reset; A continued on a new connection; B's actor received %v: the old connection's frames after newer ones", seq, heldBytes, order))
+	}
+	B.Proxy.SetPlan(func(int) Plan { return defaultPlan() })
+}
+
+
+// ---- sequential Enqueue calls with their observations ----
+
+type callObs struct {
+	msg    *XMsg
+	events []string // this call's sender-side events in publication order
+	retry  []int
+	nsf    int
+	ok     bool
+	dead   bool
+	dials  int
+	dur    time.Duration
+	size   int // MessageSize of the Sent event (frame length), 0 if none
+}
+
+// call: one Tell from the harness goroutine (Enqueue runs on it and returns when the message was written or given up)
+func (h *H) call(A, B *Node, m *XMsg) callObs {
+	_, _, _, _, _, _, _, tr0 := A.Ev.snapshotCounts()
+	A.Ev.mu.Lock()
+	nsent0 := len(A.Ev.Sent)
+	A.Ev.mu.Unlock()
+	c0 := B.Proxy.NConns()
+	t := time.Now()
+	A.Sys.Tell(RemoteRecv(B), m)
+	co := callObs{msg: m, dur: time.Since(t)}
+	dl := fmt.Sprintf("dl%d:%d", m.Sender, m.Seq)
+	done := waitUntil(3*time.Second, func() bool {
+		A.Ev.mu.Lock()
+		defer A.Ev.mu.Unlock()
+		for _, e := range A.Ev.Trace[tr0:] {
+			if e == "ok" || e == dl {
+				return true
+			}
+		}
+		return false
+	})
+	time.Sleep(300 * time.Microsecond)
+	A.Ev.mu.Lock()
+	co.events = append([]string(nil), A.Ev.Trace[tr0:]...)
+	if len(A.Ev.Sent) > nsent0 {
+		co.size = A.Ev.Sent[len(A.Ev.Sent)-1].MessageSize
+	}
+	A.Ev.mu.Unlock()
+	for _, e := range co.events {
+		switch {
+		case e == "sf":
+			co.nsf++
+		case e == "ok":
+			co.ok = true
+		case e == dl:
+			co.dead = true
+		case strings.HasPrefix(e, "cf"):
+			var n int
+			fmt.Sscanf(e[2:], "%d", &n)
+			co.retry = append(co.retry, n)
+		}
+	}
+	co.dials = len(co.retry) + B.Proxy.NConns() - c0
+	if !done {
+		h.o.Monitor("c14-no-report", lib.L(lib.S("call"), lib.N(uint64(m.Sender)), lib.N(m.Seq)),
+			fmt.Sprintf("Tell(sender %d seq %d) returned after %v; within 3 s neither a RemotingMessageSentEvent nor a DeathLetterEvent for it (events: %v)", m.Sender, m.Seq, co.dur, co.events))
+	}
+	if co.ok && co.dead {
+		h.o.Monitor("c14-sent-and-dead", lib.L(lib.S("call"), lib.N(uint64(m.Sender)), lib.N(m.Seq)), fmt.Sprintf("message reported both as sent and as dead letter: %v", co.events))
+	}
+	return co
+}
+
+type answer struct {
+	connect int // 0 refused 1 handshake failed 4 ok
+	werr    bool
+}
+
+func tAnswer(a answer) lib.T {
+	return lib.L(lib.Bool(false), lib.NI(a.connect), lib.Opt(false, nil), lib.Bool(false), lib.Bool(a.werr))
+}
+
+// answersOf: the environment's answers of one call, from its events; hsFails handshake failures (which publish no
+// event) are placed after a leading write failure
+func answersOf(co callObs, hsFails int) []lib.T {
+	var out []lib.T
+	placed := hsFails == 0
+	place := func() {
+		if !placed {
+			for i := 0; i < hsFails; i++ {
+				out = append(out, tAnswer(answer{connect: 1}))
+			}
+			placed = true
+		}
+	}
+	for i, e := range co.events {
+		switch {
+		case e == "sf":
+			out = append(out, tAnswer(answer{connect: 4, werr: true}))
+			if i == 0 {
+				place()
+			}
+		case e == "ok":
+			place()
+			out = append(out, tAnswer(answer{connect: 4, werr: false}))
+		case strings.HasPrefix(e, "cf"):
+			place()
+			out = append(out, tAnswer(answer{connect: 0}))
+		}
+	}
+	place()
+	return out
+}
+
+type scenario struct {
+	name   string
+	A, B   *Node
+	m      marks
+	first  *PConn // the cached connection at the start (nil = none)
+	start  int64  // its frame-stream position at the start
+	cap    int64  // bytes it will still carry (-1 = not known to be cut: treated as unlimited)
+	conn0  int    // proxy connection count at the start
+	calls  []callObs
+	hsFail []int // per call: handshake failures arranged for it
+	frameLen func(m *XMsg) int
+	wholeOld bool // the first connection is presented to the model from its handshake on
+}
+
+func (h *H) begin(name string, A, B *Node, first *PConn, capBytes int64) *scenario {
+	sc := &scenario{name: name, A: A, B: B, m: mark(B), first: first, cap: capBytes, conn0: B.Proxy.NConns()}
+	if first != nil {
+		sc.start = first.Pos()
+	}
+	return sc
+}
+
+func (sc *scenario) do(h *H, m *XMsg, hsFails int) callObs {
+	co := h.call(sc.A, sc.B, m)
+	sc.calls = append(sc.calls, co)
+	sc.hsFail = append(sc.hsFail, hsFails)
+	return co
+}
+
+// finish: monitors on what B's actor received + the model case
+func (sc *scenario) finish(h *H, nontrivial bool) {
+	time.Sleep(2 * time.Millisecond)
+	A, B := sc.A, sc.B
+	desc := lib.L(lib.S(sc.name), lib.NI(A.Limit))
+	// --- property monitors (implementation only) ---
+	sent := map[[2]uint64]*XMsg{}
+	order := map[[2]uint64]int{}
+	for i, c := range sc.calls {
+		k := [2]uint64{uint64(c.msg.Sender), c.msg.Seq}
+		sent[k] = c.msg
+		order[k] = i
+	}
+	last := -1
+	seen := map[[2]uint64]bool{}
+	for _, g := range B.Rec.Snapshot(sc.m.rec) {
+		k := [2]uint64{uint64(g.Sender), g.Seq}
+		x, ok := sent[k]
+		if !ok || x.Kind != g.Kind || len(x.Data) != g.Len || cksum(x.Data) != g.Sum {
+			h.o.Monitor("c14-forged-delivery", desc, fmt.Sprintf("%s: B's actor received (kind %d sender %d seq %d len %d from %s), which is not one of the %d messages sent", sc.name, g.Kind, g.Sender, g.Seq, g.Len, g.From, len(sc.calls)))
+			continue
+		}
+		if seen[k] {
+			h.o.Monitor("c14-duplicate", desc, fmt.Sprintf("%s: message sender %d seq %d delivered twice", sc.name, g.Sender, g.Seq))
+		}
+		seen[k] = true
+		if order[k] < last {
+			h.o.Monitor("c14-reorder", desc, fmt.Sprintf("%s: message #%d delivered after message #%d", sc.name, order[k], last))
+		}
+		last = order[k]
+	}
+	lost := 0
+	for _, c := range sc.calls {
+		k := [2]uint64{uint64(c.msg.Sender), c.msg.Seq}
+		if c.dead && seen[k] {
+			h.o.Stats["dead-letter-yet-delivered"]++
+		}
+		if !c.dead && !seen[k] {
+			lost++
+		}
+	}
+	h.o.Stats["written-but-lost-after-cut"] += lost
+	// --- model case ---
+	var calls []lib.T
+	for i, c := range sc.calls {
+		fl := sc.frameLen(c.msg)
+		calls = append(calls, lib.L(lib.NI(fl), lib.LS(answersOf(c, sc.hsFail[i]))))
+	}
+	var conns []lib.T
+	var lens []lib.T
+	total := 0
+	if sc.first != nil {
+		t, n := connInput(sc.first, false, int(sc.start))
+		conns = append(conns, t)
+		lens = append(lens, lib.NI(n))
+		total += n
+	}
+	for _, c := range B.Proxy.Conns(sc.conn0) {
+		t, n := connInput(c, true, 0)
+		conns = append(conns, t)
+		total += n
+		c.mu.Lock()
+		hsDone := len(c.HsChunks) > 0 && !c.Plan.Reject && c.Plan.HsCut < 0
+		inj := c.Injected
+		c.mu.Unlock()
+		if hsDone {
+			lens = append(lens, lib.NI(n-inj))
+		}
+	}
+	if total > maxCaseBytes {
+		h.o.Stats["case-skipped-too-big"]++
+		return
+	}
+	first := lib.Opt(false, nil)
+	if sc.first != nil {
+		if sc.cap >= 0 {
+			first = lib.Opt(true, lib.N(uint64(sc.cap)))
+		} else {
+			first = lib.Opt(true, lib.N(1<<40))
+		}
+	}
+	in := lib.L(lib.N(1), lib.NI(A.Limit), first, lib.LS(calls), lib.LS(conns))
+	var outs []lib.T
+	for _, c := range sc.calls {
+		var rc []lib.T
+		for _, r := range c.retry {
+			rc = append(rc, lib.NI(r))
+		}
+		outs = append(outs, lib.L(lib.LS(rc), lib.NI(c.nsf), lib.Bool(c.ok), lib.Bool(c.dead), lib.NI(c.dials)))
+	}
+	kind := sc.name
+	if i := strings.IndexAny(kind, "@/"); i > 0 {
+		kind = kind[:i]
+	}
+	h.o.Case(fmt.Sprintf("%s/limit%d", kind, A.Limit), nontrivial, in, lib.L(lib.LS(outs), lib.LS(lens), observed(B, sc.m)))
+}
+
+var linkSeq uint64
+
+func (h *H) msg(sender uint32, n int) *XMsg {
+	linkSeq++
+	d := make([]byte, n)
+	for i := range d {
+		d[i] = byte(linkSeq) + byte(i*7)
+	}
+	return &XMsg{Kind: KTell, Sender: sender, Seq: linkSeq, Data: d}
+}
+
+// flush: keep telling until one arrives (the link is fine again); every call belongs to the scenario
+func (sc *scenario) flush(h *H, max int) bool {
+	for i := 0; i < max; i++ {
+		m := h.msg(7, 1)
+		sc.do(h, m, 0)
+		if waitUntil(40*time.Millisecond, func() bool {
+			for _, g := range sc.B.Rec.Snapshot(sc.m.rec) {
+				if g.Sender == 7 && g.Seq == m.Seq {
+					return true
+				}
+			}
+			return false
+		}) {
+			return true
+		}
+	}
+	return false
+}
+
+// ---- the scenarios ----
+
+// cutAt: the cached healthy connection is cut after k more bytes, three Tells, then Tells until one arrives
+func (h *H) cutAt(A, B *Node, k int64, frameLen func(*XMsg) int, sizes []int) {
+	c := h.healthy(A, B)
+	if c == nil {
+		h.o.Monitor("c14-no-recovery", lib.L(lib.S("cut"), lib.N(uint64(k))), "no healthy connection could be established before the scenario")
+		return
+	}
+	sc := h.begin(fmt.Sprintf("cut@%d/limit%d", k, A.Limit), A, B, c, k)
+	sc.frameLen = frameLen
+	c.ArmCut(k)
+	for _, n := range sizes {
+		sc.do(h, h.msg(5, n), 0)
+	}
+	// the reset reaches the sender
+	waitUntil(200*time.Millisecond, func() bool { return c.WasCut() })
+	time.Sleep(500 * time.Microsecond)
+	if !sc.flush(h, 12) {
+		h.o.Monitor("c14-no-recovery", lib.L(lib.S("cut"), lib.N(uint64(k))), fmt.Sprintf("%s: after the cut none of 12 further Tells (40 ms apart) was delivered although the peer is reachable", sc.name))
+	}
+	sc.finish(h, true)
+	h.o.Stats["cut-scenarios"]++
+}
+
+// refused: dials are refused by the kernel for one message, then the peer is reachable again
+func (h *H) refused(A, B *Node, frameLen func(*XMsg) int) {
+	c := h.healthy(A, B)
+	if c == nil {
+		return
+	}
+	sc := h.begin(fmt.Sprintf("refused/limit%d", A.Limit), A, B, c, 0)
+	sc.frameLen = frameLen
+	B.Proxy.Refuse(true)
+	c.ArmCut(0)
+	waitUntil(200*time.Millisecond, func() bool { return c.WasCut() })
+	time.Sleep(time.Millisecond)
+	// the first call may still die on the cached connection; the following one meets only refusals
+	for i := 0; i < 3; i++ {
+		co := sc.do(h, h.msg(6, 3), 0)
+		if len(co.retry) > 0 {
+			// all limit+1 attempts were dials?
+			if co.nsf == 0 && !co.dead {
+				h.o.Monitor("c14-dead-letter-missing", lib.L(lib.S(sc.name)), fmt.Sprintf("%s: %d refused dials (RetryCounts %v) and no dead letter", sc.name, len(co.retry), co.retry))
+			}
+			if co.nsf == 0 {
+				break
+			}
+		}
+	}
+	if err := B.Proxy.Refuse(false); err != nil {
+		panic(err)
+	}
+	if !sc.flush(h, 12) {
+		h.o.Monitor("c14-no-recovery", lib.L(lib.S(sc.name)), sc.name+": the peer accepts connections again but none of 12 further Tells was delivered")
+	}
+	sc.finish(h, true)
+}
+
+// rejected: connections are accepted and reset at once (or cut inside the handshake): the handshake fails
+func (h *H) rejected(A, B *Node, frameLen func(*XMsg) int, hsCut int) {
+	c := h.healthy(A, B)
+	if c == nil {
+		return
+	}
+	name := fmt.Sprintf("reset-after-accept/limit%d", A.Limit)
+	if hsCut >= 0 {
+		name = fmt.Sprintf("handshake-cut@%d/limit%d", hsCut, A.Limit)
+	}
+	sc := h.begin(name, A, B, c, 0)
+	sc.frameLen = frameLen
+	bad := true
+	B.Proxy.SetPlan(func(int) Plan {
+		p := defaultPlan()
+		if bad {
+			if hsCut >= 0 {
+				p.HsCut = hsCut
+			} else {
+				p.Reject = true
+			}
+		}
+		return p
+	})
+	c.ArmCut(0)
+	waitUntil(200*time.Millisecond, func() bool { return c.WasCut() })
+	time.Sleep(time.Millisecond)
+	for i := 0; i < 3; i++ {
+		n0 := B.Proxy.NConns()
+		m := h.msg(8, 2)
+		co := h.call(A, B, m)
+		fails := B.Proxy.NConns() - n0
+		sc.calls = append(sc.calls, co)
+		sc.hsFail = append(sc.hsFail, fails)
+		if fails > 0 {
+			if !co.dead {
+				h.o.Monitor("c14-dead-letter-missing", lib.L(lib.S(sc.name)), fmt.Sprintf("%s: %d connections failed their handshake and the message was neither sent nor dead-lettered (%v)", sc.name, fails, co.events))
+			}
+			if co.nsf == 0 {
+				break
+			}
+		}
+	}
+	bad = false
+	if !sc.flush(h, 12) {
+		h.o.Monitor("c14-no-recovery", lib.L(lib.S(sc.name)), sc.name+": handshakes pass again but none of 12 further Tells was delivered")
+	}
+	B.Proxy.SetPlan(func(int) Plan { return defaultPlan() })
+	sc.finish(h, true)
+}
+
+// unencodable: the codec refuses the message / the envelope exceeds 4 MiB
+func (h *H) unencodable(A, B *Node, frameLen func(*XMsg) int) {
+	c := h.healthy(A, B)
+	if c == nil {
+		return
+	}
+	sc := h.begin(fmt.Sprintf("unencodable/limit%d", A.Limit), A, B, c, -1)
+	sc.frameLen = func(m *XMsg) int {
+		if m.Kind == KNoEnc || len(m.Data) > 4<<20-200 {
+			return 0
+		}
+		return frameLen(m)
+	}
+	sc.do(h, h.msg(9, 4), 0)
+	bad := h.msg(9, 4)
+	bad.Kind = KNoEnc
+	co := sc.do(h, bad, 0)
+	if !co.dead || co.ok {
+		h.o.Monitor("c14-dead-letter-missing", lib.L(lib.S(sc.name)), fmt.Sprintf("%s: a message the codec cannot encode was not dead-lettered exactly once (%v)", sc.name, co.events))
+	}
+	sc.do(h, h.msg(9, 4), 0)
+	// a legitimate Tell whose envelope exceeds 4 MiB, carrying a well-formed frame in its payload
+	forged := &XMsg{Kind: KTell, Sender: 666, Seq: 4242, Data: []byte("never sent by anybody")}
+	inner := envBytes(encPayload(forged), "", false, "10.6.6.6:666", "/forged/sender", B.Adv, "/recv")
+	data := append([]byte{0x7f}, lp(inner)...)
+	data = append(data, make([]byte, 4<<20)...)
+	linkSeq++
+	big := &XMsg{Kind: KTell, Sender: 0x7f7f7f7f, Seq: 0x7f7f7f7f7f7f7f7f, Data: data}
+	co = sc.do(h, big, 0)
+	h.o.Info["oversize_tell_events_limit"+fmt.Sprint(A.Limit)] = co.events
+	sc.do(h, h.msg(9, 4), 0)
+	sc.flush(h, 3)
+	time.Sleep(30 * time.Millisecond)
+	if !co.dead && !co.ok {
+		// already reported by c14-no-report
+	}
+	sc.finish(h, true)
+}
+
+// garbage: the proxy injects an undecodable frame, a frame with a foreign payload and a frame with a bad envelope
+// between real frames of a fresh connection: none of them may stop the later frames
+func (h *H) garbage(A, B *Node, frameLen func(*XMsg) int) {
+	junk := h.r.Bytes(40)
+	junk[0] = 0xff // the first length field of the envelope is out of range: the envelope does not parse
+	badPayload := envBytes([]byte("not an XMsg payload"), "", false, A.Adv, "/", B.Adv, "/recv")
+	short := []byte{0, 0, 0, 2, 1}
+	inj := map[int][]byte{2: lp(junk), 3: lp(badPayload), 5: append(lp(short), lp(junk[:7])...)}
+	B.Proxy.KillAll()
+	base := B.Proxy.NConns()
+	B.Proxy.SetPlan(func(i int) Plan {
+		p := defaultPlan()
+		p.Inject = inj
+		return p
+	})
+	time.Sleep(2 * time.Millisecond)
+	m := mark(B)
+	sc := &scenario{name: fmt.Sprintf("injected-garbage/limit%d", A.Limit), A: A, B: B, m: m, conn0: base, frameLen: frameLen}
+	// the cached connection is dead; model it as a connection that carries nothing more
+	cs := B.Proxy.Conns(0)
+	if len(cs) > 0 {
+		sc.first = cs[len(cs)-1]
+		sc.start = sc.first.Pos()
+		sc.cap = 0
+	}
+	for i := 0; i < 10; i++ {
+		sc.do(h, h.msg(10, i), 0)
+		time.Sleep(300 * time.Microsecond)
+	}
+	sc.flush(h, 6)
+	B.Proxy.SetPlan(func(int) Plan { return defaultPlan() })
+	// every message that was written on the new connection must have arrived although garbage sits between them
+	got := map[uint64]bool{}
+	for _, g := range B.Rec.Snapshot(m.rec) {
+		got[g.Seq] = true
+	}
+	for _, c := range B.Proxy.Conns(base) {
+		rec, _ := c.Record()
+		for _, fr := range splitFrames(rec) {
+			if x := decodeXMsgFrame(fr); x != nil && !got[x.Seq] {
+				h.o.Monitor("c14-undecodable-stops-stream", lib.L(lib.S(sc.name)), fmt.Sprintf("%s: frame of message seq %d was handed to B after an injected undecodable frame and never reached the actor", sc.name, x.Seq))
+			}
+		}
+	}
+	df, _, _, _, _, _, _, _ := B.Ev.snapshotCounts()
+	h.o.Info["injected_garbage_decode_failures"] = df - m.df
+	sc.finish(h, true)
+}
+
+// restart: the peer system stops and a new one comes up behind the same advertised address
+func (h *H) restart(A, B *Node) *Node {
+	c := h.healthy(A, B)
+	if c == nil {
+		return B
+	}
+	B.Stop()
+	// the peer PROCESS is gone: its sockets are closed by the OS (a system that is merely stopped inside a living
+	// process leaves its accepted sockets open: see Info stopped_peer_in_living_process)
+	B.Proxy.KillAll()
+	B2, err := StartNode(B.Name+"'", B.Limit, B.Proxy)
+	if err != nil {
+		panic(err)
+	}
+	var trace []string
+	delivered := -1
+	for i := 0; i < 25 && delivered < 0; i++ {
+		m := h.msg(11, 2)
+		co := h.call(A, B2, m)
+		ok := waitUntil(30*time.Millisecond, func() bool {
+			for _, g := range B2.Rec.Snapshot(0) {
+				if g.Seq == m.Seq {
+					return true
+				}
+			}
+			return false
+		})
+		st := "lost-silently"
+		if ok {
+			st = "delivered"
+			delivered = i
+		} else if co.dead {
+			st = "dead-letter"
+		}
+		trace = append(trace, st)
+	}
+	h.o.Info[fmt.Sprintf("peer_restart_limit%d", A.Limit)] = trace
+	h.o.Stats["restart-runs"]++
+	if delivered < 0 {
+		h.o.Monitor("c14-no-recovery", lib.L(lib.S("peer-restart"), lib.NI(A.Limit)), fmt.Sprintf("peer restarted behind the same address; 25 Tells 30 ms apart: %v", trace))
+	}
+	return B2
+}
+
+func (h *H) runLink() {
+	type pair struct{ A, B *Node }
+	var pairs []pair
+	for _, lim := range []int{0, 2} {
+		A, err := StartNode(fmt.Sprintf("A%d", lim), lim, nil)
+		if err != nil {
+			panic(err)
+		}
+		B, err := StartNode(fmt.Sprintf("B%d", lim), lim, nil)
+		if err != nil {
+			panic(err)
+		}
+		pairs = append(pairs, pair{A, B})
+	}
+	defer func() {
+		for _, p := range pairs {
+			p.A.Stop()
+			p.A.Proxy.Close()
+			p.B.Stop()
+			p.B.Proxy.Close()
+		}
+	}()
+	thorough := h.tier == "thorough"
+	done := make(chan struct{}, len(pairs))
+	results := make([]func(), 0)
+	_ = results
+	for pi := range pairs {
+		p := &pairs[pi]
+		func() {
+			A, B := p.A, p.B
+			// frame length of a direct Tell with n data bytes: learnt from a Sent event
+			c := h.healthy(A, B)
+			if c == nil {
+				h.o.Monitor("c14-no-recovery", nil, "no connection at all")
+				return
+			}
+			co := h.call(A, B, &XMsg{Kind: KSync, Seq: 1 << 50})
+			ovh := co.size
+			frameLen := func(m *XMsg) int { return ovh + len(m.Data) }
+			sizes := []int{0, 5, 40}
+			total := int64(3*ovh + 45)
+			h.o.Info[fmt.Sprintf("three_frame_stream_bytes_limit%d", A.Limit)] = total
+			t0 := time.Now()
+			for k := int64(0); k < total; k++ {
+				if A.Limit > 0 && !thorough {
+					// sampled: every offset of the first length prefix and frame boundary neighbourhoods, every 9th otherwise
+					near := false
+					for _, b := range []int64{0, int64(ovh), int64(2*ovh + 5), total} {
+						if k >= b-2 && k <= b+4 {
+							near = true
+						}
+					}
+					if !near && k%9 != 0 {
+						continue
+					}
+				}
+				h.cutAt(A, B, k, frameLen, sizes)
+			}
+			h.logf("limit %d: cut scenarios done in %.1fs", A.Limit, time.Since(t0).Seconds())
+			h.refused(A, B, frameLen)
+			h.rejected(A, B, frameLen, -1)
+			for _, j := range []int{0, 1, 4, 10} {
+				h.rejected(A, B, frameLen, j)
+			}
+			h.unencodable(A, B, frameLen)
+			h.garbage(A, B, frameLen)
+			if A.Limit == 0 {
+				h.overlap(A, B)
+			}
+			p.B = h.restart(A, B)
+			h.logf("limit %d: all scenarios done in %.1fs", A.Limit, time.Since(t0).Seconds())
+		}()
+		done <- struct{}{}
+	}
+	h.tellBlocking()
+}
